@@ -147,9 +147,14 @@ func ValidateFilterRefs(conf *Root) error {
 			return false, nil
 		}
 	}
-	for i := range conf.Integrations {
-		for j := range conf.Integrations[i].Event.Inputs {
-			ok, err := check(&conf.Integrations[i].Event.Inputs[j].Filter.Ref)
+	// filters may sit on the components of tuple inputs
+	var checkInputs func(int, []dig.Input) error
+	checkInputs = func(i int, inputs []dig.Input) error {
+		for j := range inputs {
+			if err := checkInputs(i, inputs[j].Components); err != nil {
+				return err
+			}
+			ok, err := check(&inputs[j].Filter.Ref)
 			if err != nil {
 				return err
 			}
@@ -157,14 +162,20 @@ func ValidateFilterRefs(conf *Root) error {
 				continue
 			}
 			var (
-				refName = conf.Integrations[i].Event.Inputs[j].Filter.Ref.Integration
-				refCol  = conf.Integrations[i].Event.Inputs[j].Filter.Ref.Column
+				refName = inputs[j].Filter.Ref.Integration
+				refCol  = inputs[j].Filter.Ref.Column
 			)
 			conf.Integrations[i].Dependencies = append(
 				conf.Integrations[i].Dependencies,
 				refName,
 			)
 			igs[refName].Table.Index = append(igs[refName].Table.Index, []string{refCol})
+		}
+		return nil
+	}
+	for i := range conf.Integrations {
+		if err := checkInputs(i, conf.Integrations[i].Event.Inputs); err != nil {
+			return err
 		}
 		for j := range conf.Integrations[i].Block {
 			ok, err := check(&conf.Integrations[i].Block[j].Filter.Ref)
